@@ -5,6 +5,7 @@ package main
 // tree every cancellation point is enumerated for three kinds of consumer.
 
 import (
+	"reflect"
 	"encoding/json"
 	"errors"
 	"fmt"
@@ -489,6 +490,33 @@ func (c19) Exec(plan any, c *Ctx) *Violation {
 		}
 		lines := strings.Split(err.Error(), "\n")
 		c.hit("real_cfg_error_count_checked")
+		// every violation the library reports is of a type its cfgerrors package declares; and
+		// ONE planted violation of a kind that names one offending value is one violation
+		for i, e := range yielded {
+			if e == nil {
+				continue
+			}
+			t := reflect.TypeOf(e)
+			for t.Kind() == reflect.Pointer {
+				t = t.Elem()
+			}
+			if !strings.HasSuffix(t.PkgPath(), "/cfgerrors") {
+				return &Violation{Class: "foreign-leaf", Key: t.String(), Detail: fmt.Sprintf("cfg=%s: yielded error %d is a %T (%q): not a violation type of package cfgerrors", plantAll(*p.Cfg, p.Planted), i, e, e.Error())}
+			}
+		}
+		baseOK := false
+		if m0, e0, pan0 := newMW(*p.Cfg); m0 != nil && e0 == nil && pan0 == nil {
+			baseOK = true // (a shrunk plan may have lost a toleration its base configuration needs)
+		}
+		if len(p.Planted) == 1 && baseOK {
+			switch p.Planted[0].Kind % nPlantKinds {
+			case 1, 5, 6, 8, 9:
+				if len(yielded) != 1 {
+					_, what := plant(*p.Cfg, p.Planted[0])
+					return &Violation{Class: "count-mismatch", Key: "single", Detail: fmt.Sprintf("one planted violation (%s) but All yields %d errors: %q", what, len(yielded), err.Error())}
+				}
+			}
+		}
 		if len(lines) != len(yielded) {
 			return &Violation{Class: "count-mismatch", Key: "lines", Detail: fmt.Sprintf("cfg=%s: the error reports %d violations (lines of Error()) but All yields %d errors: %q", plantAll(*p.Cfg, p.Planted), len(lines), len(yielded), err.Error())}
 		}
